@@ -150,6 +150,12 @@ def run(tier):
     }
     if accepted_with_edit == 0:
         raise vlib.ToolError("no edited scenario is predicted to be accepted (vacuous equalities)")
+    # binding of the statement into the transcript, checked directly: the operations the real
+    # prover / verifier perform on their transcripts for proofs with several public inputs
+    # must be exactly Transcript!Items (a challenge that silently stops depending on the
+    # public inputs is invisible to verdicts on non-adaptive edits)
+    import gadgets
+    gadgets.reference_widgets(ck, tier)
     return ck.finish(rule="one case per behaviour Setup/Compose/Compile/Prove/<edit>/Verify of "
                           "Lifecycle (profile c04): every PI edit (+1, 0, copy, permutation, "
                           "truncation, extension), every near-miss circuit (selector, wire, PI row, "
